@@ -30,7 +30,7 @@ TRUSTED = [
     'correspondence is differential testing: model = code only on the hierarchies and programs executed',
 ]
 ASSUMPTIONS = [
-    'Parameter names and method names are disjoint; methods only log (they assign nothing); Number parameters holding integers',
+    'Parameter names and method names are disjoint; methods only log, except that an on_init method may assign one parameter on its first invocation (i.e. during construction; no queued watchers in those cases); Number parameters holding integers',
     'Parameter attributes exercised: bounds (only the upper bound varies, never rejecting a value) and step',
     'dotted (sub-object) dependencies are C07; async / generator methods, class-level assignment and param.trigger are outside',
     'function form: all Parameter objects belong to the one instance',
@@ -42,7 +42,7 @@ RULE = ('directed prefix (single/multiple inheritance overrides: decorated, unde
         '(assignment, slot assignment, param.update, batch_call_watchers blocks).  Compared with the model: the class table, '
         'method_dependencies of every method, the constructor log and the log of every operation.  non-trivial = at least '
         'one method was invoked by an operation and the oracle judged >=1 step; distinct = distinct canonical case')
-COVERAGE_TARGETS = ['table:inherited-entry', 'table:own-entry', 'method:not-watched', 'install:several-groups',
+COVERAGE_TARGETS = ['init:assigning-on_init', 'table:inherited-entry', 'table:own-entry', 'method:not-watched', 'install:several-groups',
                     'install:one-group', 'install:on_init', 'install:function-form', 'op:set', 'op:setslot', 'op:update',
                     'op:batch', 'dispatch-model:agrees', 'create:AttributeError', 'create:RecursionError',
                     'shape:diamond', 'shape:chain', 'override:undecorated', 'override:decorated', 'override:watch-false']
@@ -57,9 +57,14 @@ def _spec_str(attr, what):
     return attr if what == 'value' else f'{attr}:{what}'
 
 
-def _mk_method(name, k):
+def _mk_method(name, k, assign=None):
+    done = set()
+
     def f(self):
         LOG.append(f'{name}@{k}')
+        if assign is not None and id(self) not in done:
+            done.add(id(self))          # an assigning method assigns on its first invocation only
+            setattr(self, assign[0], assign[1])
     f.__name__ = name
     return f
 
@@ -89,7 +94,8 @@ def run_impl(case):
             for p in d['params']:
                 ns[p] = param.Number(default=0, bounds=(-1000, 1000), step=1)
             for m in d['methods']:
-                f = _mk_method(m['name'], i)
+                asg = next(((a[2], a[3]) for a in case.get('assigns', []) if a[0] == m['name'] and a[1] == i), None)
+                f = _mk_method(m['name'], i, asg)
                 di = m['dinfo']
                 if di is not None:
                     f = param.depends(*[_spec_str(a, w) for a, w in di['specs']],
@@ -169,8 +175,10 @@ def _init_vals(case):
     return [[p, w, 0] for p in ps for w in WHATS]
 
 
-def _finish(classes, inst, fns, ops):
+def _finish(classes, inst, fns, ops, assigns=None):
     case = {'classes': classes, 'inst': inst, 'fns': fns, 'ops': ops}
+    if assigns:
+        case['assigns'] = assigns
     case['init'] = _init_vals(case)
     return case
 
@@ -247,7 +255,26 @@ def _gen_case(rng):
                 ops.append({'op': 'batch', 'body': [_gen_simple(rng, ps) for _ in range(rng.randint(1, 4))]})
             else:
                 ops.append(_gen_simple(rng, ps))
-    return _finish(classes, inst, fns, ops)
+    assigns = []
+    if ps and rng.random() < 0.3:
+        # on_init methods that assign a parameter while the object is constructed (no queued watchers then)
+        free = list(ps)
+        rng.shuffle(free)
+        for i, d in enumerate(classes):
+            for m in d['methods']:
+                di = m['dinfo']
+                if di and di['watch'] and di['on_init'] and free and rng.random() < 0.7:
+                    vis = _visible(classes, [c['mro'] for c in classes], i, 'params')
+                    cand = [p for p in free if p in vis]
+                    if cand:
+                        assigns.append([m['name'], i, cand[0], rng.choice([5, 6, 7])])
+                        free.remove(cand[0])
+        if assigns:
+            for d in classes:
+                for m in d['methods']:
+                    if m['dinfo']:
+                        m['dinfo']['queued'] = False
+    return _finish(classes, inst, fns, ops, assigns)
 
 
 def _cls(bases, mro, params, methods):
@@ -295,6 +322,11 @@ def _directed():
     U = _cls([], [0], ['p0'], [_um('m0'), _dm('m1', ['m0'])])
     yield _finish([U, _cls([0], [1, 0], ['p1'], [])], 1, [], list(_PROG))
     yield _finish([U], 0, [], [_S('p0', 1), _S('p0', 1)])
+    # an on_init method assigns a parameter that later-registered methods (same class, subclass) depend on
+    I = _cls([], [0], ['p0', 'p1', 'p2'], [_dm('m0', ['p0'], on_init=True), _dm('m1', ['p1'])])
+    J = _cls([0], [1, 0], [], [_dm('m2', ['p1'], on_init=True)])
+    yield _finish([I], 0, [], list(_PROG), [['m0', 0, 'p1', 5]])
+    yield _finish([I, J], 1, [], list(_PROG), [['m0', 0, 'p1', 5], ['m2', 1, 'p2', 6]])
     # function form
     yield _finish([A], 0, [['f0', ['p0', 'p1']]], list(_PROG))
     yield _finish([A], 0, [['f0', ['p0', 'p0']]], list(_PROG))
@@ -353,8 +385,18 @@ def nontrivial(case, impl, resp):
     return resp.get('checked_steps', 0) >= 1 and any(st['log'] for st in impl['steps'])
 
 
+_finish0 = _finish
+
+
 def shrink(case):
     cl, inst, fns, ops = case['classes'], case['inst'], case['fns'], case['ops']
+    asg = case.get('assigns')
+    if asg:
+        for i in range(len(asg)):
+            yield _finish0(cl, inst, fns, ops, asg[:i] + asg[i + 1:])
+
+    def _finish(a, b, c, d):          # every candidate keeps the constructor-time assignments
+        return _finish0(a, b, c, d, asg)
     for i in range(len(ops)):
         yield _finish(cl, inst, fns, ops[:i] + ops[i + 1:])
     for i, op in enumerate(ops):
